@@ -705,6 +705,49 @@ func hmCorpus(c *hx.Ctx, cw *hx.CaseWriter) {
 	}
 }
 
+// hmMaxIndex: allocations that land on MaxUint32 and collide there (and on the 0xfffffffe/0xffffffff pair), in the
+// pending map, the main map and the relay map. The code must refuse or draw again; a retry strategy that probes
+// forward from the colliding value would wrap to 0 and hand out the "unknown" index.
+func hmMaxIndex(c *hx.Ctx, cw *hx.CaseWriter) {
+	const m = 0xffffffff
+	{
+		h := hmNewHist(c, 50)
+		h.opStart(1)
+		h.opAlloc(1, []uint32{m}) // pending h1 holds MaxUint32
+		h.opStart(2)
+		h.opAlloc(2, []uint32{m, 7})            // collides in the pending map
+		h.opResp([]uint64{3}, 1, []uint32{m, 8}) // responder draws MaxUint32: local index collision
+		h.opResp([]uint64{3}, 1, []uint32{m - 1})
+		h.opStart(4)
+		h.opAlloc(5, []uint32{m - 1, m, 9}) // main holds 0xfffffffe, pending holds 0xffffffff
+		h.opComplete(1, []uint64{1}, 5)     // MaxUint32 moves to the main map
+		h.opStart(5)
+		h.opAlloc(6, []uint32{m, m, 0, m - 1, 10}) // collides in the main map
+		h.opAddRelay(1, 9, []uint32{m})
+		h.opAddRelay(1, 8, []uint32{m, m - 1})
+		h.opAddRelay(4, 8, []uint32{m - 1, m, 0, 11}) // hostinfo 4 is the second responder tunnel
+		h.opDelete(1)
+		h.opStart(1)
+		h.opAlloc(7, []uint32{m}) // MaxUint32 is free again
+		h.emit(cw, "CHist", "corpus-maxindex")
+	}
+	{
+		h := hmNewHist(c, 50)
+		h.opResp([]uint64{1}, 1, []uint32{m})
+		h.opStart(2)
+		h.opAlloc(2, []uint32{m, m, m, 3})
+		h.opStart(3)
+		sc := []uint32{}
+		for i := 0; i < 31; i++ {
+			sc = append(sc, m)
+		}
+		h.opAlloc(3, append(sc, 4)) // 31 collisions at MaxUint32, then a free index
+		h.opStart(4)
+		h.opAlloc(4, append(sc, m, 5)) // 32 collisions: must fail, not wrap
+		h.emit(cw, "CHist", "corpus-maxindex-tries")
+	}
+}
+
 // hmWitness: regression histories for fix F16. A tunnel is deleted, its local index is handed out again, and a
 // second (stale) delete of the first tunnel must leave the new owner's Indexes entry alone; the same through a
 // relay index and through the pending index map.
@@ -749,6 +792,7 @@ func runHostmap(c *hx.Ctx, idxHeavy bool) {
 	cw := c.NewCaseWriter("From NV Require Import model.HostMap corr.HostMap_corr.", "HostMap_corr.case", check, 20)
 	hmCorpus(c, cw)
 	hmWitness(c, cw)
+	hmMaxIndex(c, cw)
 	for i := 0; i < c.N; i++ {
 		space := 40
 		if idxHeavy {
